@@ -65,7 +65,7 @@ def get_calibration_indices(
                 ]
                 for ix in range(num_groups)
             ],
-            dtype="int16",
+            dtype="int64",
         )
 
     return _get_ix(time.values, begin, "left"), _get_ix(time.values, end, "right")
